@@ -7,7 +7,7 @@
 //! string commands, WGL search with memoisation).
 //! The schedules are SAMPLED: the seed fixes the programs of the clients and their yield
 //! patterns, not the interleaving the runtime picks.
-use crate::c03::{apply, h_bytes, h_str, new_state, Op, State};
+use crate::c03::{apply, h_bytes, h_str, new_state, r1, Op, State};
 use crate::enc::hex;
 use crate::out::Out;
 use crate::rng::Rng;
@@ -32,6 +32,9 @@ fn spec(state: &Option<Vec<u8>>, op: &Op) -> (Option<Vec<u8>>, String) {
     match op.name {
         "GET" | "FGET" | "PGET" => (state.clone(), state.as_ref().map(bulk).unwrap_or("nil".into())),
         "SET" | "FSET" | "PSET" => (Some(op.vals[0].clone()), "ok".into()),
+        // one item of a batched call
+        "BGET" => (state.clone(), format!("m:[{}]", state.as_ref().map(bulk).unwrap_or("nil".into()))),
+        "BSET" => (Some(op.vals[0].clone()), "m:[ok]".into()),
         "SETNX" => match state {
             Some(_) => (state.clone(), "i:0".into()),
             None => (Some(op.vals[0].clone()), "i:1".into()),
@@ -170,7 +173,7 @@ fn mismatched(k: &[u8], n: usize, fixed: bool) -> bool {
 }
 
 fn random_case(rng: &mut Rng, fixed: bool) -> Case {
-    let n = *rng.pick(&[1usize, 2, 4, 4]);
+    let n = *rng.pick(&[1usize, 2, 4, 4, 8, 16]);
     let class = *rng.pick(&["generic", "generic", "fast", "mixed", "mixed", "mixed-consistent"]);
     let clients = rng.range(2, 8) as usize;
     let nkeys = rng.range(1, 3) as usize;
@@ -191,6 +194,29 @@ fn random_case(rng: &mut Rng, fixed: bool) -> Case {
             continue;
         }
         *c += 1;
+        // the batched path: small batches (1..4 distinct keys: gaps between the touched shards are
+        // the norm) on the SAME keys as the other paths, padded with keys nobody else touches
+        if class != "generic" && rng.chance(1, 4) {
+            let mut bk = vec![k.clone()];
+            for _ in 0..rng.below(4) {
+                let extra = if rng.chance(1, 2) { keys[rng.below(keys.len() as u64) as usize].clone() } else { format!("pad{}", rng.below(30)).into_bytes() };
+                if !bk.contains(&extra) && (class != "mixed-consistent" || !mismatched(&extra, n, fixed)) {
+                    bk.push(extra);
+                }
+            }
+            rng.shuffle(&mut bk);
+            for x in &bk {
+                if x != &k {
+                    *per_key_count.entry(x.clone()).or_insert(0) += 1;
+                }
+            }
+            let op = if rng.chance(1, 2) { Op::new("BGET", bk, vec![]) } else {
+                let vs = bk.iter().map(|_| val(rng)).collect();
+                Op::new("BSET", bk, vs)
+            };
+            programs[i % clients].push((op, rng.below(4) as u8));
+            continue;
+        }
         let op = gen_op(rng, class, &k);
         programs[i % clients].push((op, rng.below(4) as u8));
     }
@@ -209,11 +235,58 @@ fn corpus(fixed: bool) -> Case {
     Case { n: 4, class: "mixed", programs: vec![prog] }
 }
 
+/// the batched path, sequentially (ONE client): an acknowledged batched SET must be seen by the
+/// generic path, and a batched GET must see a later fast SET — with keys whose home shard is not
+/// the first one and batches that leave gaps between the touched shards
+fn corpus_batch() -> Vec<Case> {
+    let mut cs = Vec::new();
+    for n in [4usize, 8, 16] {
+        let mut prog = Vec::new();
+        for k in pool().into_iter().take(14) {
+            prog.push((Op::new("BSET", vec![k.clone()], vec![b"old".to_vec()]), 0));
+            prog.push((Op::k("GET", &k), 0));
+            prog.push((Op::kv("FSET", &k, b"new"), 0));
+            prog.push((Op::new("BGET", vec![k.clone()], vec![]), 0));
+        }
+        // two- and three-key batches
+        let p = pool();
+        for w in p[14..26].chunks(3) {
+            prog.push((Op::new("BSET", w.to_vec(), w.iter().map(|_| b"b3".to_vec()).collect()), 0));
+            for k in w {
+                prog.push((Op::k("FGET", k), 0));
+            }
+            prog.push((Op::new("BGET", w.iter().rev().cloned().collect(), vec![]), 0));
+        }
+        cs.push(Case { n, class: "batch", programs: vec![prog] });
+    }
+    cs
+}
+
 async fn client(st: Arc<State>, clock: Arc<AtomicU64>, prog: Vec<(Op, u8)>) -> Vec<Event> {
     let mut evs = Vec::with_capacity(prog.len() * 2);
     for (op, yields) in prog {
         for _ in 0..yields {
             tokio::task::yield_now().await;
+        }
+        if matches!(op.name, "BGET" | "BSET") {
+            // a batched call: every item is one single-key operation with the call's interval
+            let n = op.keys.len() as u64;
+            let id0 = clock.fetch_add(n, Ordering::SeqCst);
+            let bytes = |v: &Vec<u8>| bytes::Bytes::copy_from_slice(v);
+            let replies = if op.name == "BGET" {
+                st.fast_batch_get_pipeline(op.keys.iter().map(bytes).collect()).await
+            } else {
+                st.fast_batch_set_pipeline(op.keys.iter().zip(&op.vals).map(|(k, v)| (bytes(k), bytes(v))).collect()).await
+            };
+            let d0 = clock.fetch_add(n, Ordering::SeqCst);
+            for j in 0..op.keys.len() {
+                let item = if op.name == "BGET" { Op::new("BGET", vec![op.keys[j].clone()], vec![]) } else { Op::new("BSET", vec![op.keys[j].clone()], vec![op.vals[j].clone()]) };
+                let r = replies.get(j).map(|v| format!("m:[{}]", r1(v))).unwrap_or("m:[e:?missing]".into());
+                let id = id0 + j as u64;
+                evs.push(Event { stamp: id, id, inv: Some(item), res: None });
+                evs.push(Event { stamp: d0 + j as u64, id, inv: None, res: Some(r) });
+            }
+            continue;
         }
         let id = clock.fetch_add(1, Ordering::SeqCst);
         let r = apply(&st, &op).await;
@@ -264,7 +337,7 @@ fn judge(out: &mut Out, events: Vec<Event>, class: &'static str, n: usize, clien
             bad_keys.push(k.clone());
         }
         for (i, a) in ops.iter().enumerate() {
-            writes |= !matches!(a.op.name, "GET" | "FGET" | "PGET" | "STRLEN");
+            writes |= !matches!(a.op.name, "GET" | "FGET" | "PGET" | "BGET" | "STRLEN");
             for b in ops.iter().skip(i + 1) {
                 let a_end = a.res.as_ref().map(|r| r.0).unwrap_or(usize::MAX);
                 let b_end = b.res.as_ref().map(|r| r.0).unwrap_or(usize::MAX);
@@ -437,6 +510,9 @@ pub fn run(a: &Args) {
         };
         out.extra.insert("hash_key_delegates_to_hash_key_bytes".into(), json!(fixed));
         run_case(&mut out, corpus(fixed), fixed).await;
+        for c in corpus_batch() {
+            run_case(&mut out, c, fixed).await;
+        }
         // cancellations: the fixed case first, then a few random ones
         cancel_case(&mut out, &mut Rng::new(0xC02), fixed, true).await;
         for i in 0..a.n {
@@ -448,5 +524,5 @@ pub fn run(a: &Args) {
             }
         }
     });
-    out.finish("case = one concurrent history: 2..8 client tasks (multi-thread tokio runtime, seeded random yields) issue 6..12 single-key string commands per key over 1..3 keys through execute / fast_* / pooled_fast_* of a real ShardedActorState with 1, 2 or 4 shards; invocation/response stamped by a global atomic counter. Schedules are SAMPLED (the seed fixes programs and yield patterns, not the interleaving). plus cancellation histories (a slow script keeps one shard busy, pooled requests to it are abandoned by a timeout while queued and stay pending, then 4..8 single-writer clients run > pool-size pooled SET/GET rounds during and after the stall; every reply is also checked directly against its request). distinct by the stamped history text; non-trivial iff two operations on one key overlap in real time and the key is written, or an operation was abandoned");
+    out.finish("case = one concurrent history: 2..8 client tasks (multi-thread tokio runtime, seeded random yields) issue 6..12 single-key string commands per key over 1..3 keys through execute / fast_* / pooled_fast_* / fast_batch_get_pipeline / fast_batch_set_pipeline (batches of 1..4 keys, every item one single-key operation with the call's interval) of a real ShardedActorState with 1, 2, 4, 8 or 16 shards; invocation/response stamped by a global atomic counter. Schedules are SAMPLED (the seed fixes programs and yield patterns, not the interleaving). plus cancellation histories (a slow script keeps one shard busy, pooled requests to it are abandoned by a timeout while queued and stay pending, then 4..8 single-writer clients run > pool-size pooled SET/GET rounds during and after the stall; every reply is also checked directly against its request). distinct by the stamped history text; non-trivial iff two operations on one key overlap in real time and the key is written, or an operation was abandoned");
 }
